@@ -51,7 +51,7 @@ Proof.
     intros _. rewrite !andb_true_iff. intros [[[[_ Hm] _] Hh] Hp]. subst h p.
     pose proof (handle_p_no_panic_early r) as Hnp.
     destruct (handle_p r); [| |contradiction]; destruct o; try discriminate; reflexivity.
-  - reflexivity.
+  - intros -> H. apply N.eqb_eq in H. subst n. reflexivity.
   - intros _ ->. reflexivity.
 Qed.
 End Early.
@@ -70,6 +70,7 @@ Proof.
     + apply list_eqb_seqb_eq; exact H1.
     + apply Forall_forall. intros v Hv. rewrite forallb_forall in H2. apply H2; exact Hv.
   - intros H; exact H.
+  - destruct cc; [discriminate|reflexivity].
 Qed.
 
 (* every case a shard accepts (c20_check_covered) is within the scope of the soundness theorem, or the
@@ -94,6 +95,17 @@ Lemma watch_cancel_responses_client_cancel : watch_cancel_responses true true = 
 Proof. reflexivity. Qed.
 Lemma watch_cancel_responses_stream_end : watch_cancel_responses true false = 1.
 Proof. reflexivity. Qed.
+
+(* finding C20-F1: the faithful model violates "one Canceled response per watch" ... *)
+Lemma watch_cancel_once_refuted : exists cc, 1 < watch_cancel_responses true cc.
+Proof. exists true. vm_compute. reflexivity. Qed.
+(* ... exactly when the client cancels *)
+Lemma watch_cancel_once_except_client_cancel : forall cc, cc = false -> watch_cancel_responses true cc = 1.
+Proof. intros cc ->. reflexivity. Qed.
+(* and the oracle reports exactly that signature on what the model produces *)
+Lemma c20_cancel_oracle_signature gn t cc n :
+  c20_check t (KCancel cc n) = true -> c20_oracle gn t (KCancel cc n) = if cc then Some 1 else None.
+Proof. simpl. intros H. apply N.eqb_eq in H. subst n. destruct cc; reflexivity. Qed.
 
 (* ---------- limits ---------- *)
 
